@@ -219,6 +219,28 @@ Theorem C06_program_sound_else : forall fuel fi text,
     end.
 Proof. exact program_sound_else. Qed.
 
+(* ... AND WITH INPUT (Proofs/ProgSoundElse.v): only DEF tokens are excluded, and the
+   run includes the replies the host gives while the program waits.  An INPUT
+   goes back to its own token and is re-executed as a statement of its own when
+   the reply arrives (again after REENTER), wherever it stands: the position of
+   an INPUT that is the clause of an IF is one more kind of place where
+   execution may stand (InputOK: the statement the checker accepted there, at
+   whatever nesting, with the clause end behind it), and the tokens of its
+   target are expression tokens, so the rewind finds this INPUT and no other. *)
+Theorem C06_program_sound_input : forall fuel fi text,
+  line_bound text < fuel ->
+  forallb (fun msg => negb (is_error_msg msg)) (an_messages (analyze fuel text)) = true ->
+  nodef_program (st_toks (p_prog (pass1_of' text))) ->
+  forall line s0, state s0 = Idle -> st_toks s0 = st_toks (p_prog (pass1_of' text)) ->
+    st_keys s0 = st_keys (p_prog (pass1_of' text)) ->
+    caps_inv s0 -> command_of line = Some CRun ->
+    match start_evaluating fi line s0 with
+    | (Ok _, s1) => forall s, ReachI fi s1 s -> state s = Running -> turn_ok fi s
+    | (Err e _, _) => benign e
+    | _ => True
+    end.
+Proof. exact program_sound_input. Qed.
+
 (* what an accepted expression is made of: operands, operators, parentheses, commas *)
 Theorem C06_expression_tokens : forall f n st t st',
   analyze_expression f n st = (Ok t, st') -> PL exprtok (fst st) (fst st').
@@ -275,6 +297,63 @@ Proof.
   split; [apply clean2_program_check; vm_compute; reflexivity|].
   split; [vm_compute; reflexivity|]. split; [vm_compute; reflexivity|]. split; [vm_compute; reflexivity|].
   split; [apply caps_reachable, caps_init | vm_compute; reflexivity].
+Qed.
+
+Lemma nodef_program_check T : forallb (fun kv => nodef_line (snd kv)) T = true -> nodef_program T.
+Proof.
+  induction T as [|[k v] T IH]; intros H n ts E; cbn [toks_get] in E; [discriminate E|].
+  cbn [forallb snd] in H. apply andb_prop in H as [H1 H2].
+  destruct (k =? n)%N; [injection E as <-; exact H1 | exact (IH H2 n ts E)].
+Qed.
+
+(* non-vacuity of the INPUT theorem: INPUT as the ELSE clause of an inner IF with the outer ELSE behind it;
+   RUN stops awaiting input, the reply makes the interpreter runnable again and the next turn succeeds *)
+Definition C06_input_lines : list String.string :=
+  ["10 IF 1 THEN IF 0 THEN PRINT ""A"" ELSE INPUT X ELSE PRINT ""B""";
+   "20 IF X THEN INPUT B$ ELSE INPUT C"; "30 PRINT X; B$"]%string.
+Definition C06_input_text : bytes := List.concat (map (fun l => bs l ++ [10%N]) C06_input_lines).
+Definition C06_input_state : interp := run_state 100 init_interp (map (fun l => HLine (bs l)) C06_input_lines).
+
+Example C06_input_example :
+  line_bound C06_input_text < 200
+  /\ forallb (fun msg => negb (is_error_msg msg)) (an_messages (analyze 200 C06_input_text)) = true
+  /\ nodef_program (st_toks (p_prog (pass1_of' C06_input_text)))
+  /\ state C06_input_state = Idle
+  /\ st_toks C06_input_state = st_toks (p_prog (pass1_of' C06_input_text))
+  /\ st_keys C06_input_state = st_keys (p_prog (pass1_of' C06_input_text))
+  /\ caps_inv C06_input_state
+  /\ fst (start_evaluating 200 (bs "RUN") C06_input_state) = Ok tt
+  /\ state (snd (start_evaluating 200 (bs "RUN") C06_input_state)) = AwaitingInput
+  /\ exists s2, provide_input (bs "7") (snd (start_evaluating 200 (bs "RUN") C06_input_state)) = (Ok tt, s2)
+       /\ ReachI 200 (snd (start_evaluating 200 (bs "RUN") C06_input_state)) s2
+       /\ state s2 = Running /\ fst (continue_evaluating 200 s2) = Ok tt.
+Proof.
+  split; [vm_compute; repeat constructor|]. split; [vm_compute; reflexivity|].
+  split; [apply nodef_program_check; vm_compute; reflexivity|].
+  split; [vm_compute; reflexivity|]. split; [vm_compute; reflexivity|]. split; [vm_compute; reflexivity|].
+  split; [apply caps_reachable, caps_init|]. split; [vm_compute; reflexivity|]. split; [vm_compute; reflexivity|].
+  eexists. split; [vm_compute; reflexivity|].
+  split; [eapply reachI_reply; [apply reachI_refl | vm_compute; reflexivity]|].
+  split; vm_compute; reflexivity.
+Qed.
+
+(* THE KNOWN FINDING (open, known_findings.json class accepted-but-fails:late-def): the soundness clause is FALSE of the
+   faithful model, and of the code, for a DEF that runs before its use but stands on a later line.  The checker reports
+   nothing; the third turn after RUN fails with a syntax error at the call.  (The theorems above exclude DEF tokens.) *)
+Definition C06_late_lines : list String.string :=
+  ["10 GOTO 30"; "20 PRINT FNA(1) : END"; "30 DEF FNA(X,Y) = X + Y"; "40 GOTO 20"]%string.
+Definition C06_late_text : bytes := List.concat (map (fun l => bs l ++ [10%N]) C06_late_lines).
+Definition C06_late_state : interp :=
+  run_state 100 init_interp (map (fun l => HLine (bs l)) C06_late_lines ++ [HLine (bs "RUN"); HCont; HCont]).
+
+Example C06_late_def_refuted :
+  forallb (fun msg => negb (is_error_msg msg)) (an_messages (analyze 200 C06_late_text)) = true
+  /\ st_toks C06_late_state = st_toks (p_prog (pass1_of' C06_late_text))
+  /\ state C06_late_state = Running
+  /\ exists e l, fst (continue_evaluating 100 C06_late_state) = Err e l /\ ~ benign e.
+Proof.
+  split; [vm_compute; reflexivity|]. split; [vm_compute; reflexivity|]. split; [vm_compute; reflexivity|].
+  eexists _, _. split; [vm_compute; reflexivity|]. cbn. exact (fun H => H).
 Qed.
 
 Lemma clean_program_check T : forallb (fun kv => clean_line (snd kv)) T = true -> clean_program T.
@@ -343,4 +422,5 @@ Print Assumptions C06_executed_statement_is_not_rejected.
 Print Assumptions C06_program_sound.
 Print Assumptions C06_turn_sound.
 Print Assumptions C06_program_sound_else.
+Print Assumptions C06_program_sound_input.
 Print Assumptions C06_expression_tokens.
